@@ -252,6 +252,10 @@ class Prop:
     def shrink(self, case, still_fails):
         return case
 
+    def finish(self, cases):
+        """Whole-run oracle (properties about histories of calls). Returns list of Failure."""
+        return []
+
     def count(self, k, n=1):
         self.stats[k] = self.stats.get(k, 0) + n
 
@@ -433,6 +437,11 @@ def run_check(prop_cls, tier, seed, replay=None):
     if not have_driver:
         broken.append('driver binary unavailable: correspondence not run')
     run_batch(cases, do_model=have_driver)
+    try:
+        failures.extend(prop.finish(cases) or [])
+    except Exception as e:
+        harness_errors.append('finish crashed: %r' % (e,))
+        traceback.print_exc()
     if len(prop.samples) < 3:
         for c in cases[:3]:
             prop.samples.append(c)
